@@ -141,6 +141,11 @@ func (vm *VM) GetCallStack() []*CallFrame {
 }
 
 func (vm *VM) GetCurrentModule() *Module {
+	// the frames of native code (built-in methods, the constructor of a predefined type)
+	// run in the native module
+	if vm.csModuleID == NATIVE_CODE_MODULE_ID && vm.csCount > 0 {
+		return NativeCodeModule
+	}
 	return vm.moduleGraph.GetModuleByID(vm.csModuleID)
 }
 
